@@ -49,3 +49,17 @@ Lemma layout_wf_full_false : ~ layout_wf_full.
 Proof. intros F. destruct t1_full_refuted_d03 as [ops [m Hn]]. apply Hn. apply F. Qed.
 Lemma groups_wf_full_false : ~ groups_wf_full.
 Proof. intros F. destruct groups_full_refuted_d35 as [ops [u [g Hn]]]. apply Hn. apply F. Qed.
+
+(* the witnesses, with their histories in the statement *)
+Lemma d03_witness : ~ wf (8 * gbytes (run d03_ops) 0%nat) (msg_view (run d03_ops) 0%nat).
+Proof. apply msg_wfb_false. exact d03_breaks. Qed.
+Lemma d36_witness : ~ wf (8 * gbytes (run d36_ops) 0%nat) (msg_view (run d36_ops) 0%nat).
+Proof. apply msg_wfb_false. exact d36_breaks. Qed.
+Lemma reattach_witness : ~ wf (8 * gbytes (run reattach_ops) 0%nat) (msg_view (run reattach_ops) 0%nat).
+Proof. apply msg_wfb_false. exact reattach_breaks. Qed.
+Lemma ctor_witness : ~ wf (8 * gbytes (run ctor_ops) 0%nat) (msg_view (run ctor_ops) 0%nat).
+Proof. apply msg_wfb_false. exact ctor_breaks. Qed.
+Lemma d35_witness : ~ wf (mux_gsize (run d35_ops) 0%nat) (group_view (run d35_ops) 0%nat 0%nat).
+Proof. apply group_wfb_false. exact d35_breaks. Qed.
+Lemma d35_grow_witness : ~ wf (mux_gsize (run d35_grow_ops) 0%nat) (group_view (run d35_grow_ops) 0%nat 1%nat).
+Proof. apply group_wfb_false. exact d35_grow_breaks. Qed.
